@@ -20,6 +20,7 @@ def run(tier):
     rep = Report(PID, tier, 'model_checking')
     bl = hjcommon.QUICK_BOUNDS[:3] if tier == 'quick' else hjcommon.THOROUGH_BOUNDS      # the deep and tied enumerations below go further
     hjcommon.explore(rep, ('C03',), bl, ('C03',))
+    hjcommon.explore_codecs(rep, ('C03',), tier, ('C03',))
     hjcommon.probe_long_cards(rep, ('C03',))
     deep = QUICK_DEEP if tier == 'quick' else THOROUGH_DEEP
     dt = dict(nodes=0, leaves=0, terminal_checked=0, jumpoffs=0)
@@ -39,6 +40,19 @@ def run(tier):
         rep.part('tie-focused (%d athletes, %d regular, %d jump-off heights)' % (n, R, J), wall_s=round(time.time() - t0, 1), **tot)
         for sig, hist, msg in viol:
             rep.add_violation(Violation(sig, dict(bounds=[n, R, J], history=hjmc.fmt_hist(hist)), msg))
+    # the tie-focused enumeration once more with the heights passed as binary floats / two-place Decimals at 1 cm steps
+    for (n, R, J), codec in ([((3, 2, 2), 'float-cm')] if tier == 'quick' else [((3, 2, 2), 'float-cm'), ((3, 2, 2), 'decimal-cm'), ((2, 3, 2), 'float-cm')]):
+        t0 = time.time()
+        hjmc.set_codec(codec)
+        try:
+            tot, viol = hjmc.tied_enumerate(n, R, J)
+        finally:
+            hjmc.set_codec(None)
+        for k in dt:
+            dt[k] += tot[k]
+        rep.part('tie-focused (%d athletes, %d regular, %d jump-off heights), heights passed as %s' % (n, R, J, codec), wall_s=round(time.time() - t0, 1), **tot)
+        for sig, hist, msg in viol:
+            rep.add_violation(Violation(sig + ':heights-as-%s' % codec, dict(bounds=[n, R, J], history=hjmc.fmt_hist(hist), codec=codec), msg))
     for (n, J, deltas) in (QUICK_JOLONG if tier == 'quick' else THOROUGH_JOLONG):
         t0 = time.time()
         tot, viol = hjmc.jo_long(n, J, deltas)
